@@ -203,5 +203,14 @@ Definition run (c : sx) : sx :=
              ofBlocks (line_solution cf d nord' cells)]
       | _, _, _, _, _, _, _ => sx_error 7
       end
+  | L [I 7%Z; cal; nxs; nv; cs; hs; nxxs] =>
+      match asCalc cal, asListOf asNat nxs, asNat nv, asListOf asCell cs, asB hs, asListOf asNat nxxs with
+      | Some cal', Some nx, Some nv', Some cs', Some hs', Some nxx =>
+          let cells := grid_samples nx (map (fun _ => 1) nx) (map (fun _ => 0) nx) None cs' in
+          let cf := {| c_calc := cal'; c_hasSel := hs'; c_hasW := false; c_dateLoop := false; c_dateChk := false; c_nvar := nv' |} in
+          L [ofBlocks (vmap_fft cf nx cells nxx);
+             ofList (fun t : nat * nat => ofNat (fft_size (fst t) (2 * snd t + 1))) (combine nx nxx)]
+      | _, _, _, _, _, _ => sx_error 8
+      end
   | _ => sx_error 0
   end.
